@@ -159,7 +159,15 @@ func cleanEnd(o *Out, cmd string, args []string, mustFail bool, what string) *Vi
 	case simrt.OutDeadlock:
 		return &Violation{Signature: "deadlock", Msg: fmt.Sprintf("%s deadlocks (%s)", cmd, what)}
 	case simrt.OutBudget:
-		return &Violation{Signature: "does-not-terminate", Msg: fmt.Sprintf("%s exceeds the step/task budget (%s): %d steps, %d tasks", cmd, what, o.Steps, o.Tasks)}
+		if o.Budget == "steps" {
+			// a long run is not a hang: damaged input can legitimately ask for
+			// hundreds of thousands of periods (a flipped digit in an accrual year).
+			// Counted as inconclusive; unbounded task creation and deadlock are what
+			// this check reports as non-termination.
+			Extra["inconclusive_step_budget"]++
+			return nil
+		}
+		return &Violation{Signature: "does-not-terminate", Msg: fmt.Sprintf("%s keeps creating tasks (%s): %d tasks after %d steps", cmd, what, o.Tasks, o.Steps)}
 	}
 	if o.OK() {
 		if mustFail {
